@@ -1249,9 +1249,12 @@ class Store:
                 if child not in self.inner:
                     if self.subschema or self.glob_declared:
                         self.inner[child] = Store(self.subschema, self)
+                        self.inner[child].generate_value(inner_value)
+                        # (what the value does not spell out starts
+                        # from the declared defaults)
                         self.inner[child].apply_defaults()
-                    else:
-                        self._establish_path((child,), {})
+                        continue
+                    self._establish_path((child,), {})
 
                 if child in self.inner:
                     self.inner[child].generate_value(inner_value)
